@@ -8,7 +8,7 @@ from harness import core, instantiate
 from harness.core import Outcome, f2b, b2f
 
 ID = "C14"
-LEAN_TARGETS = ["BeyondVerif.Props.C14", "BeyondVerif.Props.C14Heap", "BeyondVerif.Witness.C14"]
+LEAN_TARGETS = ["BeyondVerif.Props.C14", "BeyondVerif.Props.C14Attach", "BeyondVerif.Props.C14Builtin", "BeyondVerif.Props.C14Heap", "BeyondVerif.Witness.C14"]
 THEOREMS = [
     "BeyondVerif.C14.hop_congruence",
     "BeyondVerif.C14.symm_preserved",
@@ -28,6 +28,45 @@ THEOREMS = [
     "BeyondVerif.C14.rot_cross",
     "BeyondVerif.C14.rot_norm",
     "BeyondVerif.C14.nonrotating_frames",
+    "BeyondVerif.C14.setter_as_translated",
+    "BeyondVerif.C14.writes_as_modelled",
+    # the matrices of the built-in tree (C02's model) and to_local (templates/Local.tpl) meet the hypotheses
+    "BeyondVerif.C14.t6Mat_mul",
+    "BeyondVerif.C14.t6Mat_mulVec",
+    "BeyondVerif.C14.realLocal_orth",
+    "BeyondVerif.C14.realLocal_posShape",
+    "BeyondVerif.C14.realLocal_equivariant",
+    "BeyondVerif.C14.builtin_edgesOK",
+    "BeyondVerif.C14.pathsOK_true",
+    "BeyondVerif.C14.bConv_total",
+    "BeyondVerif.C14.bConv_comp",
+    "BeyondVerif.C14.bConv_rot",
+    "BeyondVerif.C14.names_agree",
+    "BeyondVerif.C14.builtin_laws",
+    "BeyondVerif.C14.builtin_locOrth",
+    "BeyondVerif.C14.builtin_posShape",
+    "BeyondVerif.C14.builtin_apply",
+    "BeyondVerif.C14.builtin_path_independent",
+    "BeyondVerif.C14.builtin_back_restores",
+    "BeyondVerif.C14.builtin_cov_follows_state",
+    "BeyondVerif.C14.builtin_pos_block_spectrum_partial",
+    "BeyondVerif.C14.builtin_hop_to_local",
+    "BeyondVerif.C14.local_after_rotating_blocks",
+    "BeyondVerif.C14.direct_local_wrong_of_rate",
+    "BeyondVerif.C14.builtin_locEquiv",
+    # sv.cov = c (attached-later covariances), constructor argument
+    "BeyondVerif.C14.run_orbCur",
+    "BeyondVerif.C14.attach_same_state",
+    "BeyondVerif.C14.attach_characterised",
+    "BeyondVerif.C14.attach_frame_targets",
+    "BeyondVerif.C14.attach_home_local",
+    "BeyondVerif.C14.attach_follows_state",
+    "BeyondVerif.C14.attach_reframed_local_partial",
+    "BeyondVerif.C14.attachFix_inv",
+    "BeyondVerif.C14.attachFix_path_independent",
+    "BeyondVerif.C14.ctor_supported_iff",
+    "BeyondVerif.C14.ctor_obj_first_hop",
+    "BeyondVerif.CovHeap.attach_self",
     "BeyondVerif.CovHeap.hop_other",
     "BeyondVerif.CovHeap.hop_self",
     "BeyondVerif.CovHeap.hops_project",
@@ -52,6 +91,7 @@ THEOREMS = [
     "BeyondVerif.C14W.old_setter_local_after_reframe_differs",
     "BeyondVerif.C14W.old_setter_frame_after_local_recovers",
     "BeyondVerif.C14W.current_model_path_independent",
+    "BeyondVerif.C14W.attached_reframed_local_differs",
     "BeyondVerif.C14W.memo_keyed_without_state_confuses_states",
     "BeyondVerif.C14W.shared_dict_relabels_source",
     "BeyondVerif.C14W.laws",
@@ -62,56 +102,77 @@ LEVEL_TEXT = ("Lean theorems about a state-machine model of Cov (tag, _orb_frame
               "generic in the matrix type: over real matrices every hop is a congruence M C M^T (symmetry, positive semi-definiteness and the characteristic polynomial "
               "of the position block are preserved for every sequence); for every sequence of targets the bookkeeping never moves and the final matrix is Mt C0 Mt^T "
               "with Mt determined by the last target and the original state only (path_independent, full statement; seq_eq_single_hop); back conversion restores; "
-              "the covariance follows its state; Cov.copy is transparent. to_qsw/to_tnw (hand template) are orthonormal and rotation-equivariant. The same model text, "
-              "instantiated with floats, is compared with the real Cov on random sequences fed with the real conversion matrices. "
+              "the covariance follows its state; Cov.copy is transparent. "
+              "The hypotheses on the matrices are DISCHARGED for the built-in frames (Props/C14Builtin.lean): the conversions are C02's model of Orientation.convert_to over the "
+              "orientation tree regenerated from orient.py (provider matrices translated from the Python source, rate blocks of PEF<->TOD and TIRF<->CIRF included), read as "
+              "Mathlib 6x6 matrices by a monoid homomorphism (t6Mat_mul); composition and identity follow from C02's convert_compose with its EdgesOK hypothesis proved for the "
+              "built-in providers and totality decided on the regenerated tree (builtin_laws), the block shape from C02's provider_isRotation (builtin_posShape, all frames but G50), "
+              "orthogonality of to_local at every state with non-zero angular momentum from local_orthonormal through a rows-as-lists <-> Matrix bridge (realLocal_orth, builtin_locOrth): "
+              "builtin_path_independent, builtin_back_restores, builtin_cov_follows_state hold for every date, state, matrix and sequence through inertial AND Earth-fixed frames with "
+              "no hypothesis but X^2+Y^2<1 of the CIO series and a non-degenerate state; from any current frame the hop to QSW/TNW applies to_local(x0) M(f->F0) whose velocity<-position "
+              "block carries the rate of an Earth-fixed frame (builtin_hop_to_local, local_after_rotating_blocks) and no block-diagonal matrix can stand for it (direct_local_wrong_of_rate); "
+              "to_local is equivariant under rate-free rotations in matrix form (realLocal_equivariant, builtin_locEquiv). "
+              "Attached-later covariances (sv.cov = c, Props/C14Attach.lean): after the attachment, whatever frame the state is expressed in, every later sequence ends as Mt C0 Mt^T "
+              "with the new coordinates read in _orb_frame (attach_characterised): regular targets and 'follows its state' are right at full strength (attach_frame_targets, "
+              "attach_follows_state), QSW/TNW are right when the state is expressed in the frame the covariance was built in (attach_home_local) and are NOT otherwise "
+              "(attach_reframed_local_partial + kernel-checked counter-witness attached_reframed_local_differs: open finding C14-attach-stale-orb-frame); the patched setter is right for "
+              "every target (attachFix_path_independent). The same model text, instantiated with floats, is compared with the real Cov on random histories (cov hops, state hops, state copies, "
+              "re-attachments) fed with the real conversion matrices. "
               "Several objects in one process: a heap model (Model/CovHeap.lean) of the cells Cov objects are made of - array memory, `_data` dict, private state copy, "
               "`_orb_frame` - with the cell sharing that Cov.__new__, Cov.copy, __array_finalize__ (k * c, a + b, views, copy.copy: a dict of its own, the template's `_orb_frame`), pickling and sv.cov = c produce; no memo. "
               "Proved for every matrix type: an operation on one object leaves every object sharing neither memory nor dict unchanged (hop_other, write_other, attach_other, "
-              "svHop_other; step_other for every operation of the model, step_allSep: pairwise separation is invariant in a process that takes no numpy views), new objects share nothing with old ones except a view its base's memory (newCov/copyCov/pickle/derive/mkView_spec), and an interleaved run looked at "
+              "svHop_other; step_other for every operation of the model, step_allSep: pairwise separation is invariant in a process that takes no numpy views), new objects share nothing with old ones except a view its base's memory (newCov/copyCov/pickle/derive/mkView_spec), "
+              "sv.cov = c seen through c is the single-object attach (attach_self), and an interleaved run looked at "
               "through one object is the single-object run of the targets addressed to it (hops_project); over real matrices: each covariance ends as Mt C0 Mt^T for its OWN "
               "state, matrix and last target whatever happens to the others (heap_path_independent, two_states_same_epoch, derived_independent; derived_path_independent: e = k * c ends as k Mt C0 Mt^T for every target). The heap model runs against "
               "the real classes on random interleaved operation sequences over several states sharing date and frame.")
 LEVEL_NOTE = ("numpy views share memory with their base by definition (modelled, excluded from the separation theorems by hypothesis Sep); arrays made by numpy carry `_orb_frame` "
-              "since c5f38c8 and convert like any covariance (derived_path_independent); composition laws of the orientation conversions are hypotheses (C02) tested numerically by the oracle; model hand-written, tied by correspondence; "
-              "R -> double gap by tolerance only; a Cov constructed with the name of a frame is outside the model (two open findings); "
-              "Lean kernel + propext/Classical.choice/Quot.sound")
-TECHNIQUE = "Lean 4 proof (invariant over all hop sequences, Mathlib matrices) + kernel-decided witness of the guarded regression + differential correspondence of the same generic model on floats"
+              "since c5f38c8 and convert like any covariance (derived_path_independent); the state machine of Cov is hand-written and tied by correspondence (the conversion matrices it is "
+              "proved about are C02's translated model, tied to the code by C02's correspondence; the driver is fed the real matrices); through G50 the position-block spectrum is preserved to "
+              "1e-15 only (constant matrix given in decimals: builtin_pos_block_spectrum_partial excludes G50); R -> double gap by tolerance only; a Cov constructed with the name of a frame "
+              "is outside the model, explicitly (CtorArg.name, ctor_supported_iff; two open findings); QSW/TNW of a covariance attached while its state is expressed in another frame are wrong "
+              "in the code (open finding, model faithful); Lean kernel + propext/Classical.choice/Quot.sound")
+TECHNIQUE = "Lean 4 proof (invariant over all hop sequences, Mathlib matrices; hypotheses discharged from C02's translated model of the conversions and the list model of to_local) + kernel-decided witnesses + differential correspondence of the same generic model on floats"
 TRUSTED = [
-    "lean/BeyondVerif/Model/Cov.lean: hand-written model of Cov.frame setter / Cov.copy / StateVector.frame setter, generic in the matrix type; tied to beyond/orbits/cov.py by the correspondence run (tags exact, matrices rtol 1e-9)",
+    "lean/BeyondVerif/Model/Cov.lean: hand-written model of Cov.frame setter / Cov.copy / StateVector.frame setter / StateVector.cov setter (attach), generic in the matrix type; tied to beyond/orbits/cov.py and statevector.py by the correspondence run (histories of cov hops, state hops, state copies, re-attachments; tags exact, matrices rtol 1e-9)",
     "lean/BeyondVerif/Model/CovHeap.lean: hand-written heap model (which cells Cov.__new__, Cov.copy, __array_finalize__, __reduce__/__setstate__, StateVector.cov setter allocate or share; when the setter raises AttributeError); tied to the code by the correspondence op `heap` (all bookkeeping of all objects exact after every operation, values rtol 1e-9)",
-    "lean/templates/Local.tpl: hand-written to_qsw / to_tnw / expand, tied to beyond/frames/local.py by the correspondence op `tolocal`",
-    "Generated/Frames.lean: registry of built-in frames (name -> canonical name) and the orientation links with their rate flag, read from the live modules / the AST of orient.py each run",
+    "lean/templates/Local.tpl: hand-written to_qsw / to_tnw / expand, tied to beyond/frames/local.py by the correspondence op `tolocal`; the theorems are about its R instantiation read as a Mathlib matrix (Lemmas/CovBridge.lean: listMat, realLocal)",
+    "C02's model of Orientation.convert_to (Model/FramesR.lean from templates/Frames.tpl, Generated/FrameFormulasR.lean translated from the Python source, Generated/Graphs.lean): the conversion matrices builtin_* are about; tied to the code by C02's own correspondence, not by C14's (C14's driver is handed the real matrices)",
+    "Generated/Frames.lean: registry of built-in frames (name -> canonical name) and the orientation links with their rate flag, read from the live modules / the AST of orient.py each run; names_agree checks it against the copy C20 generates",
     "numpy double arithmetic vs R: tolerance 1e-9 relative to the covariance scale",
 ]
 ASSUMPTIONS = [
-    "conversion matrices form a consistent family: M(b->c) M(a->b) = M(a->c), M(a->a) = 1, the state re-framing is x -> M x (same centre, Earth); these are C02's theorems, here hypotheses, checked numerically on the real matrices by the oracle",
-    "every M(a->b) has a zero upper-right 3x3 block and an orthogonal position block (expand(m, rate)); hypothesis of pos_block_spectrum, checked numerically by the oracle",
-    "the state has non-zero angular momentum and speed (to_local is then an orthogonal matrix: local_orthonormal)",
+    "X^2 + Y^2 < 1 for the CIO series at the date (CioOK; |X|, |Y| < 1e-3 rad in 1973-2050): C02's condition for the CIRF<->GCRF matrix to be a rotation",
+    "the state has non-zero angular momentum (NonDeg: to_local is then an orthogonal matrix, realLocal_orth)",
+    "the state re-framing is x -> M x (same centre, Earth) for all built-in frames",
     "theorems are over R; the implementation computes in IEEE doubles",
 ]
 NOT_COVERED = [
     "numpy views of a covariance (c.T, c[:], c.view(), c.reshape) look at the memory of their base: a frame change through the view rewrites the values of the base while the base keeps its label (numpy semantics; the heap model and the correspondence reproduce it, the separation theorems exclude it by hypothesis Sep, the oracle families do not use views)",
     "3x3 / 1-d slices of a covariance and non-6x6 results (c[:3, :3], c.sum()) keep a frame label but are not covariances of the state; not modelled",
-    "the numerical content of to_local beyond orthonormality / equivariance (which axis is which: q along position, t along velocity, w along angular momentum) is checked by the oracle against an independent implementation only",
+    "which axis is which in to_local (q along position, t along velocity, w along angular momentum) beyond orthonormality / equivariance is checked by the oracle against an independent implementation only",
     "frames created at run time (orbit2frame, ground stations, JPL bodies: different centres) and the curvilinear Hill frame",
-    "covariances attached to a state given in a rotating frame (outside the property's quantifier)",
+    "covariances attached to a state given in a rotating frame (outside the property's quantifier): modelled and run in the correspondence, no theorem says their QSW/TNW axes are the inertial ones (they are not)",
     "EOP-dependent content of the conversion matrices (C02)",
+    "position-block spectrum through G50 (constant decimal matrix, orthonormal to 1e-15): oracle at 1e-9 only",
 ]
 OPEN = [
-    "a Cov constructed with the *name* of a frame (documented `frame (str)`, used by io/ccsds/cov.py) is outside the model: the real setter raises AttributeError and the covariance does not follow its state (known findings C14-frame-name-tag-unconvertible / -not-following, open; proposed_fixes/C14-cov-frame-name-not-resolved.diff not applied: behaviour change at CCSDS load); oracle only",
-    "composition laws of Orientation.convert_to (Laws) and the block shape of the conversion matrices (PosShape) are hypotheses here (C02 proves them); the oracle evaluates them on the real matrices",
-    "local_orthonormal / local_equivariant are proved for the list model of to_qsw / to_tnw (templates/Local.tpl, R instantiation); the sequence theorems take orthogonality of toLocal at the original state as the matrix hypothesis LocOrth - the bridge between rows-as-lists and Matrix (Fin 3 + Fin 3) is not formalised",
-    "`sv.cov = c` (StateVector.cov setter) re-seats the private copy of `c` without updating `_orb_frame`; the heap model and its correspondence reproduce this (op `att`, also with a covariance built for another state or frame), but no theorem says what such a covariance means: heap_path_independent starts from objects whose `_orb_frame` is the frame of their private copy (heap_init)",
+    "a Cov constructed with the *name* of a frame (documented `frame (str)`, used by io/ccsds/cov.py: supported according to the docstring) is outside the model - stated in the model (CtorArg.name, ctor_supported_iff): the real setter raises AttributeError and the covariance does not follow its state (known findings C14-frame-name-tag-unconvertible / -not-following, open; proposed_fixes/C14-cov-frame-name-not-resolved.diff not applied: behaviour change at CCSDS load); oracle only",
+    "`sv.cov = c` re-seats the private copy of `c` in the frame the state is expressed in now without updating `_orb_frame`: QSW/TNW of a covariance attached to its state while the state is expressed in another frame are wrong (known finding C14-attach-stale-orb-frame, open; proposed_fixes/C14-attach-keeps-orb-frame.diff, proved right on the model: attachFix_path_independent); attach_reframed_local_partial says what the code computes",
     "the model identifies a frame with its name; Frame objects compare by identity and unpickling rebuilds them, so an unpickled covariance attached on its own to a state does not follow it (known finding C14-unpickled-frame-identity, open; proposed_fixes/C14-frame-identity-after-pickle.diff); the heap correspondence keeps these two situations out of its sequences, the oracle family `unpickled` reports them",
+    "the Cov state machine itself (Model/Cov.lean, Model/CovHeap.lean) is hand-written, not translated from the AST of cov.py: a changed branch of the setter is noticed by the correspondence, not by a regenerated Lean term",
 ]
 RULE = ("heap correspondence: 2-4 states (mostly sharing date and frame, sometimes equal), a covariance per state built from every kind of `values` (lists of ints/floats, int32/int64/"
         "float32/float64 arrays, np.matrix, Fortran/strided arrays, a Cov), then 6-12 random operations on random objects: frame assignment, state frame assignment, k * c, c + d, "
         "copy.copy/deepcopy/np.array(subok)/astype, views (c.T, c[:], ...), in-place *=, Cov.copy(frame), pickle round trip, Cov(sv, cov), sv.cov = c; after EVERY operation the tag, "
         "`_orb_frame`, private copy and values of EVERY object and the frame of every state are compared with the compiled Lean heap model (bookkeeping and error kind exact, values rtol 1e-9). "
-        "oracle families on several objects: interleaved hops of 2-6 covariances (built by Cov(), attach, copy, pickle, Cov(sv, cov), sv.copy) against R C R^T of their own state from independent "
+        "oracle, in this order (a widened sweep stops at the first failing input that is not a listed finding): directed = every frame that can be visited x QSW/TNW x (covariance alone / following its state / "
+        "Cov.copy(frame), also QSW<->TNW) then back, from 2 random states; attached-later = a covariance built for a state, attached with sv.cov = c after sv.frame = g / to sv.copy(frame=g) / to a fresh "
+        "state object / re-attached / to another state, then 1-6 cov and state frame changes aimed at the frame of the state and at QSW/TNW, against R C R^T from independent references; "
+        "interleaved hops of 2-6 covariances (built by Cov(), attach, copy, pickle, Cov(sv, cov), sv.copy) against R C R^T of their own state from independent "
         "QSW/TNW/Jacobian references, every other object bitwise unchanged after each hop; arrays derived by 11 numpy operations vs their source in both orders; the constructor for 14 kinds of values. "
-        "correspondence: random sequences (length 1-5) of cov hops / state hops / copies over the 10 built-in frames + QSW/TNW from each non-rotating start frame, "
-        "random orbits and PSD matrices, real conversion matrices handed to the compiled Lean model; bookkeeping fields exact, matrices rtol 1e-9; plus to_local alone; "
+        "correspondence: random histories (length 1-7) of cov hops / state hops / state copies / re-attachments (c = sv.cov; sv.cov = c after the state moved) over the 10 built-in frames + QSW/TNW from each non-rotating start frame, "
+        "the generator aiming at the frame the state is in; random orbits and PSD matrices, real conversion matrices handed to the compiled Lean model; bookkeeping fields exact, matrices rtol 1e-9; plus to_local alone; "
         "non-trivial = at least one hop changes the tag; distinct = distinct request line. "
         "oracle: sequence vs single hop, symmetry, PSD, position-block eigenvalues (1e-9), back conversion, independent QSW/TNW/Jacobian references, cov follows state, composition laws of the real matrices")
 
@@ -189,15 +250,227 @@ def extract(ctx):
              "/-- `get_frame`: registered name → name of the Frame object (Earth-centred built-in frames) -/",
              "def frameAlias : List (String × String) := [" + ", ".join(f'("{k}", "{v}")' for k, v in reg) + "]",
              "/-- orientation names in order of first appearance in the links of orient.py -/",
-             "def orientNames : List String := [" + ", ".join(f'"{n}"' for n in names) + "]",
-             "/-- links `a + b` of orient.py as indices into `orientNames`, with the flag: the conversion carries a rotation rate -/",
-             "def orientLinks : List (Nat × Nat × Bool) := [" + ", ".join(f"({names.index(a)}, {names.index(b)}, {'true' if r else 'false'})" for a, b, r in links) + "]",
+             "def covOrientNames : List String := [" + ", ".join(f'"{n}"' for n in names) + "]",
+             "/-- links `a + b` of orient.py as indices into `covOrientNames`, with the flag: the conversion carries a rotation rate -/",
+             "def covOrientLinks : List (Nat × Nat × Bool) := [" + ", ".join(f"({names.index(a)}, {names.index(b)}, {'true' if r else 'false'})" for a, b, r in links) + "]",
              "/-- indices of the frames the property calls non-rotating (harness list NONROT) -/",
              "def claimedNonRotating : List Nat := [" + ", ".join(str(names.index(n)) for n in NONROT) + "]",
              f"def itrfIndex : Nat := {names.index('ITRF')}",
+             f"def g50Index : Nat := {names.index('G50')}",
              "end BeyondVerif.Generated"]
     ch = ["Generated/Frames.lean"] if core.write_if_changed(os.path.join(core.LEAN, "BeyondVerif", "Generated", "Frames.lean"), "\n".join(lines) + "\n") else []
-    return ch + instantiate.main()
+    return ch + extract_setters() + instantiate.main()
+
+
+# ---------------------------------------------------------------- the setters, translated from the AST of cov.py / statevector.py
+
+COV_PY = os.path.join(core.REPO, "beyond", "orbits", "cov.py")
+SV_PY = os.path.join(core.REPO, "beyond", "orbits", "statevector.py")
+
+
+class Refuse(RuntimeError):
+    """the source has a shape the translator does not know: the model is not regenerated, the check reports it"""
+
+
+def _method(tree, cls, name, setter=False):
+    for c in tree.body:
+        if isinstance(c, ast.ClassDef) and c.name == cls:
+            for fn in c.body:
+                if isinstance(fn, ast.FunctionDef) and fn.name == name:
+                    decs = [ast.unparse(d) for d in fn.decorator_list]
+                    if setter == (f"{name}.setter" in decs):
+                        return fn
+    raise Refuse(f"{cls}.{name}{' setter' if setter else ''} not found")
+
+
+def _body(fn):
+    """statements of a function without its docstring"""
+    b = list(fn.body)
+    if b and isinstance(b[0], ast.Expr) and isinstance(b[0].value, ast.Constant) and isinstance(b[0].value.value, str):
+        b = b[1:]
+    return b
+
+
+class SetterTranslator:
+    """`Cov.frame` setter -> Lean text of `setFrameGen`.  Grammar accepted (anything else: Refuse):
+        _local = ("TNW", "QSW")
+        if isinstance(frame, str) and frame not in _local: frame = get_frame(frame)
+        if frame == self.frame: return
+        if <X> in LOCAL: v = e  elif <A> != <B>: v = e  else: v = e          (for v = m1 with X = self.frame, v = m2 with X = frame)
+        M = m2 @ m1 ; cov = M @ np.array(self) @ M.T ; self.view(np.ndarray)[:] = cov ; self._data["frame"] = frame
+    expressions: names bound before, `a @ b`, `a.T`, np.array(self), np.identity(6), to_local(<tag>, self.orb),
+    <F>.orientation.convert_to(self.orb.date, <G>.orientation) with F, G among self.frame, self._orb_frame, frame"""
+
+    LOCALS = {"TNW", "QSW"}
+
+    def __init__(self):
+        self.local_name = None
+
+    def is_local_test(self, e):
+        """`<X> in ("TNW", "QSW")` or `<X> in _local` -> source text of X"""
+        if isinstance(e, ast.Compare) and len(e.ops) == 1 and isinstance(e.ops[0], ast.In):
+            c = e.comparators[0]
+            ok = (isinstance(c, ast.Name) and c.id == self.local_name) or \
+                 (isinstance(c, ast.Tuple) and {getattr(x, "value", None) for x in c.elts} == self.LOCALS and len(c.elts) == 2)
+            if ok:
+                return ast.unparse(e.left)
+        return None
+
+    def frame_ref(self, e, env):
+        t = ast.unparse(e)
+        if t in env:
+            return env[t]
+        raise Refuse(f"Cov.frame setter: `{t}` is not a frame the translator knows here")
+
+    def expr(self, e, env, lets):
+        if isinstance(e, ast.Name) and e.id in lets:
+            return e.id
+        if isinstance(e, ast.BinOp) and isinstance(e.op, ast.MatMult):
+            return f"(E.mul {self.expr(e.left, env, lets)} {self.expr(e.right, env, lets)})"
+        if isinstance(e, ast.Attribute) and e.attr == "T":
+            return f"(E.tr {self.expr(e.value, env, lets)})"
+        t = ast.unparse(e)
+        if t == "np.array(self)":
+            return "s.mat"
+        if t == "np.identity(6)":
+            return "E.one"
+        if isinstance(e, ast.Call):
+            f = ast.unparse(e.func)
+            if f == "to_local" and len(e.args) == 2 and not e.keywords and ast.unparse(e.args[1]) == "self.orb":
+                k = ast.unparse(e.args[0]) + ":loc"
+                if k not in env:
+                    raise Refuse(f"Cov.frame setter: to_local({ast.unparse(e.args[0])}, ...) outside the branch where it is QSW/TNW")
+                return f"(E.toLocal {env[k]} s.orb)"
+            if f.endswith(".orientation.convert_to") and len(e.args) == 2 and not e.keywords and ast.unparse(e.args[0]) == "self.orb.date":
+                a = self.frame_ref(e.func.value.value, env)
+                b_ = e.args[1]
+                if not (isinstance(b_, ast.Attribute) and b_.attr == "orientation"):
+                    raise Refuse("Cov.frame setter: convert_to target is not `<frame>.orientation`")
+                return f"(E.conv {a} {self.frame_ref(b_.value, env)})"
+        raise Refuse(f"Cov.frame setter: expression `{t}` is outside the translator's grammar")
+
+    def cond(self, e, env):
+        if isinstance(e, ast.Compare) and len(e.ops) == 1 and isinstance(e.ops[0], ast.NotEq):
+            return f"{self.frame_ref(e.left, env)} ≠ {self.frame_ref(e.comparators[0], env)}"
+        raise Refuse(f"Cov.frame setter: condition `{ast.unparse(e)}` is outside the translator's grammar")
+
+    def branch3(self, st, var, subject, scrut, locvar, framevar, lets):
+        """if subject in LOCAL: var = e1 / elif c: var = e2 / else: var = e3  ->  Lean match on `scrut`"""
+        def single(body):
+            if len(body) != 1 or not isinstance(body[0], ast.Assign) or ast.unparse(body[0].targets[0]) != var:
+                raise Refuse(f"Cov.frame setter: branch of `{var}` is not a single assignment to it")
+            return body[0].value
+        if not isinstance(st, ast.If) or self.is_local_test(st.test) != subject:
+            raise Refuse(f"Cov.frame setter: expected `if {subject} in (\"TNW\", \"QSW\")` defining {var}")
+        if len(st.orelse) != 1 or not isinstance(st.orelse[0], ast.If) or not st.orelse[0].orelse:
+            raise Refuse(f"Cov.frame setter: expected if / elif / else defining {var}")
+        el = st.orelse[0]
+        base = {"self._orb_frame": "s.orbFrame"}
+        e1 = self.expr(single(st.body), dict(base, **{subject + ":loc": locvar}), lets)
+        fenv = dict(base, **{subject: framevar})
+        c2 = self.cond(el.test, fenv)
+        e2 = self.expr(single(el.body), fenv, lets)
+        e3 = self.expr(single(el.orelse), fenv, lets)
+        return (f"    match {scrut} with\n    | .loc {locvar} => {e1}\n    | .frame {framevar} => if {c2} then {e2} else {e3}")
+
+    def translate(self, fn):
+        b = _body(fn)
+        if [a.arg for a in fn.args.args] != ["self", "frame"]:
+            raise Refuse("Cov.frame setter: unexpected signature")
+        i = 0
+        if isinstance(b[i], ast.Assign) and isinstance(b[i].value, ast.Tuple) and {getattr(x, "value", None) for x in b[i].value.elts} == self.LOCALS:
+            self.local_name = ast.unparse(b[i].targets[0])
+            i += 1
+        # resolution of a name
+        st = b[i]
+        if not (isinstance(st, ast.If) and not st.orelse and ast.unparse(st.body[0]) == "frame = get_frame(frame)" and len(st.body) == 1
+                and isinstance(st.test, ast.BoolOp) and isinstance(st.test.op, ast.And) and len(st.test.values) == 2
+                and ast.unparse(st.test.values[0]) == "isinstance(frame, str)"
+                and isinstance(st.test.values[1], ast.Compare) and isinstance(st.test.values[1].ops[0], ast.NotIn)
+                and ast.unparse(st.test.values[1].left) == "frame"):
+            raise Refuse("Cov.frame setter: the resolution `if isinstance(frame, str) and frame not in _local: frame = get_frame(frame)` changed")
+        i += 1
+        st = b[i]
+        if not (isinstance(st, ast.If) and not st.orelse and ast.unparse(st.test) == "frame == self.frame" and len(st.body) == 1
+                and isinstance(st.body[0], ast.Return) and st.body[0].value is None):
+            raise Refuse("Cov.frame setter: the guard `if frame == self.frame: return` changed")
+        i += 1
+        rest = b[i:]
+        if len(rest) != 6:
+            raise Refuse(f"Cov.frame setter: {len(rest)} statements after the guard, 6 expected (m1, m2, M, cov, write values, write label)")
+        m1 = self.branch3(rest[0], "m1", "self.frame", "s.tag", "k", "f", set())
+        m2 = self.branch3(rest[1], "m2", "frame", "t", "k", "g", set())
+        lets = {"m1", "m2"}
+        out = []
+        for st, var in ((rest[2], "M"), (rest[3], "cov")):
+            if not (isinstance(st, ast.Assign) and ast.unparse(st.targets[0]) == var):
+                raise Refuse(f"Cov.frame setter: expected an assignment to {var}")
+            out.append((var, self.expr(st.value, {}, lets)))
+            lets.add(var)
+        if ast.unparse(rest[4]) != "self.view(np.ndarray)[:] = cov":
+            raise Refuse("Cov.frame setter: the values are no longer written with `self.view(np.ndarray)[:] = cov`")
+        if ast.unparse(rest[5]) != "self._data['frame'] = frame":
+            raise Refuse("Cov.frame setter: the label is no longer written with `self._data[\"frame\"] = frame` as last statement")
+        return (m1, m2, out)
+
+
+def effects(fn, on="self"):
+    """attributes / items of `self` a method writes, in order (source text of the assignment targets), calls that are statements"""
+    out = []
+    for st in ast.walk(fn):
+        if isinstance(st, (ast.Assign, ast.AugAssign)):
+            for t in (st.targets if isinstance(st, ast.Assign) else [st.target]):
+                txt = ast.unparse(t)
+                if txt.startswith(on + ".") or txt.startswith(on + "["):
+                    out.append((st.lineno, txt))
+        if isinstance(st, ast.Delete):
+            for t in st.targets:
+                out.append((st.lineno, "del " + ast.unparse(t)))
+    return [t for _, t in sorted(out)]
+
+
+def extract_setters():
+    """Generated/CovSetter.lean: the `Cov.frame` setter translated from the AST, and the order of writes of the methods the
+    model of `sv.cov = c` / `Cov(...)` rests on"""
+    ctree = ast.parse(open(COV_PY).read())
+    stree = ast.parse(open(SV_PY).read())
+    m1, m2, lets = SetterTranslator().translate(_method(ctree, "Cov", "frame", setter=True))
+    new = effects(_method(ctree, "Cov", "__new__"), on="obj")
+    orb = effects(_method(ctree, "Cov", "orb", setter=True))
+    svcov = effects(_method(stree, "StateVector", "cov", setter=True))
+    copy_src = [ast.unparse(x) for x in _body(_method(ctree, "Cov", "copy"))]
+    fin = effects(_method(ctree, "Cov", "__array_finalize__"))
+    q = lambda xs: "[" + ", ".join('"' + x.replace('\\', '\\\\').replace('"', '\\"').replace("\n", "\\n") + '"' for x in xs) + "]"
+    lines = ["import BeyondVerif.Model.Cov",
+             "/- GENERATED by harness/props/C14.py (extract_setters) from the AST of beyond/orbits/cov.py and beyond/orbits/statevector.py - do not edit.",
+             "`setFrameGen` is the `Cov.frame` setter statement by statement (guard, m1, m2, M, cov, the two writes); Props/C14.lean proves it equal to the",
+             "hand-written `Cov.setFrame` the theorems and the driver use (`setter_as_translated`), and pins the write lists (`writes_as_modelled`). -/",
+             "namespace BeyondVerif.Generated.CovSetter",
+             "open BeyondVerif.Cov",
+             "set_option linter.unusedVariables false",
+             "",
+             "/-- `Cov.frame` setter; `t` is the target after `get_frame` resolved a name -/",
+             "def setFrameGen {F Mat Vec : Type} [DecidableEq F] (E : Env F Mat Vec) (s : St F Mat Vec) (t : Tag F) : St F Mat Vec :=",
+             "  if t = s.tag then s else",
+             "  let m1 :=", m1,
+             "  let m2 :=", m2]
+    for var, e in lets:
+        lines.append(f"  let {var} := {e}")
+    lines += ["  { s with mat := cov, tag := t }",
+              "",
+              "/-- attributes `Cov.__new__` sets on the new object, in order -/",
+              f"def newWrites : List String := {q(new)}",
+              "/-- what the `Cov.orb` setter writes (reached by `obj.orb = orb` in `__new__` and by `sv.cov = c`) -/",
+              f"def orbSetterWrites : List String := {q(orb)}",
+              "/-- what the `StateVector.cov` setter writes -/",
+              f"def svCovSetterWrites : List String := {q(svcov)}",
+              "/-- what `Cov.__array_finalize__` writes -/",
+              f"def finalizeWrites : List String := {q(fin)}",
+              "/-- the statements of `Cov.copy` -/",
+              f"def copyBody : List String := {q(copy_src)}",
+              "end BeyondVerif.Generated.CovSetter"]
+    path = os.path.join(core.LEAN, "BeyondVerif", "Generated", "CovSetter.lean")
+    return ["Generated/CovSetter.lean"] if core.write_if_changed(path, "\n".join(lines) + "\n") else []
 
 
 # ---------------------------------------------------------------- generators
@@ -317,18 +590,30 @@ def canon(name):
     return get_frame(name).name
 
 
-def gen_ops(rng):
-    """history of 1-5 operations: cov hops (mostly), state hops, state copies"""
+def gen_ops(rng, f0=None):
+    """history of 1-5 operations: cov hops (mostly), state hops, state copies, re-attachments; the generator follows the frame
+    the state is in so that it can aim at it (`cov.frame = <frame of the state>` after the state moved / after sv.cov = c)"""
     ops = []
+    cur = f0
     for _ in range(rng.randint(1, 5)):
         r = rng.random()
         pool = FRAMES + ["WGS84"]
-        if r < 0.70:
+        if r < 0.62:
             ops.append(("h", rng.choice(pool + LOCAL * 4)))
-        elif r < 0.85:
-            ops.append(("s", rng.choice(pool)))
+        elif r < 0.70:
+            ops.append(("h", cur if cur else rng.choice(pool)))
+        elif r < 0.83:
+            cur = rng.choice(pool)
+            ops.append(("s", cur))
+        elif r < 0.90:
+            ops.append(("a", "-"))      # c = sv.cov; sv.cov = c : the private copy is re-seated in the frame the state is in now
+            if rng.random() < 0.5:
+                ops.append(("h", rng.choice([cur or rng.choice(pool)] + LOCAL)))
         else:
-            ops.append(("c", rng.choice(pool + ["-"] * 5)))
+            t = rng.choice(pool + ["-"] * 5)
+            if t != "-":
+                cur = t
+            ops.append(("c", t))
     if rng.random() < 0.03:
         ops.insert(rng.randrange(len(ops) + 1), (rng.choice("hsc"), rng.choice(["FOO", "Hill2", "qsw", "eme2000"])))
     return ops
@@ -349,6 +634,9 @@ def real_history(f0, tag0, x, date, c0, ops):
                 sv.cov.frame = name
             elif kind == "s":
                 sv.frame = name
+            elif kind == "a":
+                c = sv.cov
+                sv.cov = c
             else:
                 sv = sv.copy(frame=None if name == "-" else name)
         except UnknownFrameError:
@@ -398,7 +686,7 @@ def correspondence(ctx):
         date = gen_date(rng)
         c0, sp, sv_, rank = gen_cov(rng)
         tag0 = f0 if rng.random() < 0.85 else rng.choice(LOCAL)
-        ops = gen_ops(rng)
+        ops = gen_ops(rng, f0)
         obs, err = real_history(f0, tag0, x, date, c0, ops)
         k, table = conv_table(f0, ops, date)
         req = " ".join(["cov", f0, tag0] + [f2b(v) for v in x] + [f2b(v) for v in c0.flatten()] + [str(k)] + table + [t for op in ops for t in op])
@@ -406,7 +694,8 @@ def correspondence(ctx):
         meta.append((obs, err, scales(c0, sp, sv_), {"start": f0, "tag0": tag0, "ops": ops, "x": x, "date": date, "cov": c0.tolist()}))
         changes = sum(1 for i, o in enumerate(obs) if o[1] != (obs[i - 1][1] if i else tag0))
         out.count(key=req, nontrivial=changes > 0, kind="history", length=len(ops), tagchanges=changes, start=f0, error=err or "none",
-                  starttag="local" if tag0 in LOCAL else "frame")
+                  starttag="local" if tag0 in LOCAL else "frame", reattachments=sum(1 for o in ops if o[0] == "a"),
+                  statehops=sum(1 for o in ops if o[0] == "s"))
     for _ in range(ctx.n(300, 5000)):
         from beyond.frames.local import to_local
         x = gen_state(rng)
@@ -696,7 +985,7 @@ def gen_heap_case(rng, nops):
         elif r < 0.82:
             push(["imul", i, rng.choice([2.0, 0.5, 9.0])])
         elif r < 0.88:
-            push(["copy", i, rng.choice(["-", "-"] + names + LOCAL)])
+            push(["copy", i, rng.choice(["-", "-"] + names + LOCAL * 2)])
         elif r < 0.92:
             push(["pkl", i])
         elif r < 0.95:
@@ -813,13 +1102,48 @@ def heap_correspondence(ctx, out):
 
 # ---------------------------------------------------------------- oracle on the real API
 
+def unlisted(out):
+    """a failing input that is not one of the listed open findings has been found (a widened sweep stops there)"""
+    known = {k["family"] for k in core.load_known() if k.get("property") == ID and k.get("status", "open") == "open"}
+    return any(f["family"] not in known for f in out.failures)
+
+
 def oracle(ctx, widened):
+    """the quick sweep over every family first; a widened / thorough run goes on with ten times the sample only when the quick
+    sweep found no failing input outside the listed findings, and stops at the first one it finds"""
+    out = Outcome()
+    sweep(ctx, out, False, bool(widened or ctx.thorough))
+    if (widened or ctx.thorough):
+        if unlisted(out):
+            out.notes.append("widened sweep not started: the quick sweep already holds a failing input")
+        else:
+            sweep(ctx, out, True, True)
+    out.sample({"checks": "directed (every frame visited x QSW/TNW x cov alone / with state / Cov.copy), attached-later covariances, seq vs single hop, symmetry, PSD, "
+                "position-block spectrum, back conversion, reference R C R^T, cov follows state (copy / in place / then local), several objects, conversion-matrix laws"})
+    return out
+
+
+def sweep(ctx, out, big, early):
     import numpy as np
     from beyond.frames.frames import get_frame
-    out = Outcome()
     rng = ctx.rng
-    N = 1500 if (widened or ctx.thorough) else 120
+    # cheap, discriminating families first: every (frame visited, QSW/TNW) pair with the covariance alone and with its state,
+    # attached-later covariances; a widened sweep stops at the first failing input that is not a listed finding
+    directed(out, rng)
+    if early and unlisted(out):
+        out.notes.append("widened sweep stopped after the directed family: failing input found")
+        return out
+    for how in ATTACH_HOW:
+        for _ in range(6):
+            guarded(check_attached, out, gen_attached(rng, how))
+    if early and unlisted(out):
+        out.notes.append("widened sweep stopped after the attached-later family: failing input found")
+        return out
+    N = 1500 if big else 120
     for it in range(N):
+        if early and it % 10 == 0 and unlisted(out):
+            out.notes.append(f"widened sweep stopped after {it} sequences: failing input found")
+            return out
         f0 = NONROT[it % len(NONROT)] if it < 4 * len(NONROT) else rng.choice(NONROT)
         x = gen_state(rng)
         date = gen_date(rng)
@@ -919,10 +1243,11 @@ def oracle(ctx, widened):
             rel = float(np.abs(np.array(sv.cov) - refk).max() / max(np.abs(refk).max(), 1e-300))
             out.fail("path-dependent:" + fam2, "QSW/TNW covariance requested after the state (and its covariance) changed frame is not the one of the inertial state's axes",
                      dict(inp, g=g, mids=mids, local=k), observed={"rel_diff": rel}, expected=refk.tolist())
-    several_objects(out, rng, bool(widened or ctx.thorough))
-    named_tags(out, rng, 40 if (widened or ctx.thorough) else 6)
-    laws(out, rng, 40 if (widened or ctx.thorough) else 8)
-    out.sample({"checks": "seq vs single hop, symmetry, PSD, position-block spectrum, back conversion, reference R C R^T, cov follows state (copy / in place / then local), conversion-matrix laws"})
+    if early and unlisted(out):
+        return out
+    several_objects(out, rng, big, early)
+    named_tags(out, rng, 40 if big else 6)
+    laws(out, rng, 40 if big else 8)
     return out
 
 
@@ -1262,6 +1587,169 @@ def check_unpickled(out, scen):
                  observed={"state": sv.frame.name, "cov": tagname(sv.cov)}, expected={"state": g, "cov": g})
 
 
+ATTACH_HOW = ["sv.frame", "sv.copy", "fresh-state", "reattach", "other-state"]
+
+
+def gen_attached(rng, how):
+    """a covariance built for a state, attached LATER (`sv.cov = c`) - possibly after the state changed frame - then any
+    history of covariance / state frame changes"""
+    f0 = rng.choice(NONROT)
+    g = f0 if (how == "reattach" or rng.random() < 0.3) else rng.choice([f for f in NONROT if f != f0])
+    pre = [rng.choice(FRAMES + LOCAL) for _ in range(rng.randint(0, 2))]
+    if pre and pre[-1] in LOCAL:
+        pre.append(rng.choice(FRAMES))          # the covariance rests in a regular frame when it is attached
+    post = []
+    for _ in range(rng.randint(1, 4)):
+        r = rng.random()
+        post.append(["h", rng.choice(FRAMES + LOCAL * 5)] if r < 0.75 else ["s", rng.choice(FRAMES)])
+    if rng.random() < 0.7:
+        post.append(["h", rng.choice(LOCAL)])
+    if how == "other-state":
+        g = f0          # another state given in the frame the covariance was built in: the covariance C0 becomes the one of THAT state
+    return {"kind": "attached", "date": gen_date(rng), "f0": f0, "x": gen_state(rng), "x1": gen_state(rng), "cov": gen_cov(rng)[0].tolist(), "g": g, "how": how,
+            "pre": pre, "post": post}
+
+
+def attached_family(scen, t):
+    return "attached-later:" + ("home" if scen["g"] == scen["f0"] else "reframed-state") + ":" + \
+        ("local-target" if t in LOCAL else "follows" if t == "follows" else "frame-target")
+
+
+def check_attached(out, scen):
+    """`sv.cov = c`: the covariance C0 was built for the state x given in f0; whatever frame the state is expressed in when the
+    covariance is attached, every later frame change must give R C0 R^T with R from the definition (the linear map of the state
+    transformation f0 -> t; the QSW/TNW axes of the inertial position and velocity), and the covariance follows its state"""
+    import numpy as np
+    from beyond.orbits.cov import Cov
+    from beyond.frames.frames import get_frame
+    date, f0, x, g, how = scen["date"], scen["f0"], scen["x"], scen["g"], scen["how"]
+    c0 = np.array(scen["cov"])
+    sv = make_sv(x, date, f0)
+    c = Cov(sv, c0.copy(), get_frame(f0))
+    for t in scen["pre"]:
+        c.frame = t
+    if how == "sv.frame":
+        sv.frame = g
+    elif how == "sv.copy":
+        sv = sv.copy(frame=g)
+    elif how == "fresh-state":
+        sv = make_sv([float(v) for v in sv.copy(frame=g)], date, g)
+    elif how == "reattach":
+        sv.cov = c
+        c = sv.cov
+    elif how == "other-state":
+        x = scen["x1"]                       # from here on the covariance describes this state: its QSW/TNW axes are the required ones
+        sv = make_sv(x, date, f0)
+    sv.cov = c
+    rot = {}
+
+    def expected(t):
+        if t not in rot:
+            R = ref_rotation(x, date, f0, t)
+            rot[t] = R @ c0 @ R.T
+        return rot[t]
+    out.count(key=("attached", how, f0, g, tuple(scen["pre"]), str(scen["post"]), tuple(x)), nontrivial=g != f0, kind="attached-later", how=how,
+              state_frame="home" if g == f0 else "reframed")
+    cur = tagname(sv.cov)
+    if not mclose(np.array(sv.cov), expected(cur), tscale(expected(cur))):
+        out.fail(attached_family(scen, cur) + ":at-attach", f"after the frame changes {scen['pre']} and sv.cov = c the covariance (labelled {cur}) is not R C R^T for that frame", scen, observed=np.array(sv.cov).tolist(), expected=expected(cur).tolist())
+        return
+    for n, (kind, t) in enumerate(scen["post"]):
+        before = tagname(sv.cov)
+        if kind == "h":
+            sv.cov.frame = t
+            want = t if t in LOCAL else canon(t)
+            fam = attached_family(scen, t)
+        else:
+            follows = before == sv.frame.name
+            sv.frame = t
+            want = canon(t) if follows else before
+            fam = attached_family(scen, "follows")
+            if sv.frame.name != canon(t):
+                out.fail(fam + ":state", f"op {n}: sv.frame = {t} did not move the state", scen, observed=sv.frame.name, expected=canon(t))
+                return
+        out.count(key=None, kind="attached-later-op", op=kind)
+        got = np.array(sv.cov)
+        if tagname(sv.cov) != want:
+            out.fail(fam + ":tag", f"op {n} ({kind} {t}): the covariance attached with sv.cov = c carries the wrong frame label", scen, observed=tagname(sv.cov), expected=want)
+            return
+        if not mclose(got, expected(want), tscale(expected(want))):
+            rel = float(np.abs(got - expected(want)).max() / max(np.abs(expected(want)).max(), 1e-300))
+            out.fail(fam, f"op {n} ({kind} {t}): a covariance attached with sv.cov = c (state expressed in {g}, covariance built for it in {f0}) is not R C R^T "
+                     "for the rotation from the axes it was given in onto the target axes (QSW/TNW of the inertial position and velocity)", scen,
+                     observed={"rel_diff": rel, "matrix": got.tolist()}, expected=expected(want).tolist())
+            return
+
+
+def gen_directed(rng):
+    f0 = rng.choice(NONROT)
+    return {"kind": "directed", "date": gen_date(rng), "f0": f0, "x": gen_state(rng), "cov": gen_cov(rng)[0].tolist()}
+
+
+def check_directed(out, scen):
+    """every frame that can be visited, then QSW and TNW, with the covariance alone and with the covariance following its
+    state; then back: the cheapest inputs on which a mis-tracked reference state or a wrong current->parent->local map shows"""
+    import numpy as np
+    from beyond.orbits.cov import Cov
+    from beyond.frames.frames import get_frame
+    date, f0, x = scen["date"], scen["f0"], scen["x"]
+    c0 = np.array(scen["cov"])
+    sc = tscale(c0)
+    refs = {k: ref_local(k, x) @ c0 @ ref_local(k, x).T for k in LOCAL}
+    only = scen.get("only")
+    for via in [f for f in FRAMES if f != f0]:
+        for k in LOCAL:
+            for mode in ("cov-alone", "with-state", "cov.copy"):
+                if only and only != [via, k, mode]:
+                    continue
+                sv = make_sv(x, date, f0)
+                sv.cov = Cov(sv, c0.copy(), get_frame(f0))
+                if mode == "with-state":
+                    sv.frame = via
+                else:
+                    sv.cov.frame = via
+                if mode == "cov.copy":
+                    # Cov.copy(frame=k): a new object expressed in k, the original untouched; then the state carries the copy
+                    src = via
+                    if via in ("ITRF", "TEME", "MOD"):
+                        src = [q for q in LOCAL if q != k][0]      # from the other local frame: QSW <-> TNW through Cov.copy
+                        sv.cov.frame = src
+                    orig, keep = sv.cov, np.array(sv.cov)
+                    new = orig.copy(frame=k)
+                    if tagname(orig) != src or not np.array_equal(np.array(orig), keep):
+                        out.fail("cov-copy:original-touched", f"Cov.copy(frame={k}) modified the covariance it copies", dict(scen, only=[via, k, mode]),
+                                 observed={"tag": tagname(orig)}, expected={"tag": src})
+                        return
+                    if tagname(new) != k:
+                        out.fail("cov-copy:tag", f"Cov.copy(frame={k}) is not labelled {k}", dict(scen, only=[via, k, mode]), observed=tagname(new), expected=k)
+                        return
+                    sv.cov = new
+                else:
+                    sv.cov.frame = k
+                out.count(key=("directed", f0, via, k, mode, tuple(x)), nontrivial=True, kind="directed", mode=mode, via="rotating" if via in ("ITRF", "PEF", "TIRF") else "inertial")
+                inp = dict(scen, only=[via, k, mode])
+                got = np.array(sv.cov)
+                if not mclose(got, refs[k], tscale(refs[k])):
+                    rel = float(np.abs(got - refs[k]).max() / max(np.abs(refs[k]).max(), 1e-300))
+                    out.fail("path-dependent:local-after-reframe", f"{f0} -> {via} ({mode}) -> {k}: the QSW/TNW covariance is not R C R^T for the axes of the inertial position and velocity",
+                             inp, observed={"rel_diff": rel, "matrix": got.tolist()}, expected=refs[k].tolist())
+                    return
+                if mode != "with-state":
+                    sv.cov.frame = f0
+                else:
+                    sv.cov.frame = via
+                    sv.frame = f0
+                if tagname(sv.cov) != f0 or not mclose(np.array(sv.cov), c0, sc):
+                    out.fail("back-conversion:local-after-reframe", f"{f0} -> {via} ({mode}) -> {k} -> back to {f0}: the original matrix is not restored", inp,
+                             observed={"tag": tagname(sv.cov), "matrix": np.array(sv.cov).tolist()}, expected=c0.tolist())
+                    return
+
+
+def directed(out, rng):
+    for _ in range(2):
+        guarded(check_directed, out, gen_directed(rng))
+
+
 def guarded(check, out, scen):
     """an exception nobody expects inside a family is a failing input of that family, not a harness error"""
     try:
@@ -1273,20 +1761,30 @@ def guarded(check, out, scen):
         out.fail(f"{scen['kind']}:exception:{type(ex).__name__}:{site}", f"unexpected {type(ex).__name__} ({ex}) at {site}", scen, observed=f"{type(ex).__name__}: {ex}")
 
 
-CHECKS = {"multi": check_multi, "derived": check_derived, "ctor": check_ctor, "unpickled": check_unpickled}
+CHECKS = {"multi": check_multi, "derived": check_derived, "ctor": check_ctor, "unpickled": check_unpickled, "attached": check_attached, "directed": check_directed}
 
 
-def several_objects(out, rng, big):
-    for _ in range(250 if big else 25):
-        guarded(check_multi, out, gen_multi(rng))
-    for how in DERIVE_HOW:
-        for _ in range(20 if big else 3):
-            guarded(check_derived, out, gen_derived(rng, how))
-    for vkind in INT_KINDS:
-        for _ in range(10 if big else 2):
-            guarded(check_ctor, out, gen_ctor(rng, vkind))
-    for _ in range(40 if big else 6):
-        guarded(check_unpickled, out, gen_unpickled(rng))
+def several_objects(out, rng, big, early=False):
+    def families():
+        for _ in range(250 if big else 25):
+            yield check_multi, gen_multi(rng)
+        for how in DERIVE_HOW:
+            for _ in range(20 if big else 3):
+                yield check_derived, gen_derived(rng, how)
+        for vkind in INT_KINDS:
+            for _ in range(10 if big else 2):
+                yield check_ctor, gen_ctor(rng, vkind)
+        for _ in range(40 if big else 6):
+            yield check_unpickled, gen_unpickled(rng)
+        if big:
+            for how in ATTACH_HOW:
+                for _ in range(40):
+                    yield check_attached, gen_attached(rng, how)
+    for n, (check, scen) in enumerate(families()):
+        guarded(check, out, scen)
+        if early and n % 10 == 9 and unlisted(out):
+            out.notes.append("widened sweep over several objects stopped: failing input found")
+            return
 
 
 def named_tags(out, rng, n):
